@@ -134,6 +134,39 @@ def colliding_bases(bases):
     return out
 
 
+def pair_bases():
+    """Two defaults changed at once: an option X whose stored default is compared while what decides X's visibility
+    (an option defined after X / a choice) still awaits the resolution of its own stored default."""
+    S = lambda n: ["s", n]  # noqa: E731
+    C = lambda v: ["c", v]  # noqa: E731
+    mk = ktree.mk_config
+    out = []
+    for fwd in (1, 0):
+        for dd_new in (["n"], ["y"]):
+            def prog(xd, dd):
+                x = mk("X", "int", prompt=Y, dep=S("D"), defaults=[{"v": C(xd), "c": Y}])
+                d = mk("D", "bool", prompt=Y, defaults=[{"v": dd, "c": Y}])
+                z = mk("Z", "int", prompt=Y, defaults=[{"v": C(xd), "c": Y}])
+                return [x, d, z] if fwd else [d, x, z]
+            order = [["s", "D"], ["s", "X"], ["s", "Z"]]
+            vars_ = [{"n": "D", "kind": "sym", "cands": [ktree.NOVAL, "y"]}]
+            base = {"prog": prog("1", ["y"]), "ord": order, "vars": vars_, "family": "F-pairs"}
+            base["mutations"] = [("same", "", base), ("two-defaults", "X", {"prog": prog("2", dd_new), "ord": order})]
+            out.append(base)
+    for fwd in (1, 0):
+        def prog(xd, chd):
+            x = mk("XC", "int", prompt=Y, dep=S("M1"), defaults=[{"v": C(xd), "c": Y}])
+            ch = {"k": "choice", "id": "CH", "title": "ch", "prompt": [Y], "dep": Y, "defaults": [{"m": chd, "c": Y}],
+                  "children": [mk("M1", "bool", prompt=Y), mk("M2", "bool", prompt=Y)]}
+            return [x, ch] if fwd else [ch, x]
+        order = [["ch", "CH"], ["s", "M1"], ["s", "M2"], ["s", "XC"]]
+        vars_ = [{"n": "CH", "kind": "choice", "cands": [ktree.NOVAL, "M1"]}]
+        base = {"prog": prog("1", "M1"), "ord": order, "vars": vars_, "family": "F-pairs"}
+        base["mutations"] = [("same", "", base), ("two-defaults", "XC", {"prog": prog("2", "M2"), "ord": order})]
+        out.append(base)
+    return out
+
+
 def marks(kconf, names, info):
     out = []
     for n in names:
@@ -206,11 +239,11 @@ def main(run):
     lat = [p for p in lattice.prec_lattice(tier) if p["family"] in ("F-prec", "F-choice", "F-nest")]
     reg = [p for p in lattice.regress_lattice()]
     if tier == "quick":
-        bases = reg + lat[::14] + ktree.generate(run.seed + 2100, 14)
+        bases = reg + pair_bases() + lat[::14] + ktree.generate(run.seed + 2100, 14)
         n_states, n_seq = 3, 2
         bases += colliding_bases(lat[::6] + ktree.generate(run.seed + 2100, 60))[:12]
     else:
-        bases = reg + lat[::2] + ktree.generate(run.seed + 2100, 300)
+        bases = reg + pair_bases() + lat[::2] + ktree.generate(run.seed + 2100, 300)
         n_states, n_seq = 6, 3
         bases += colliding_bases(bases)
     progs = []
@@ -233,7 +266,7 @@ def main(run):
             with open(p, newline="") as f:
                 files.append((asg, f.read()))
         kc.reset_report(kold)
-        for label, focus, new in mutations(base, brng):
+        for label, focus, new in base.get("mutations") or mutations(base, brng):
             text = ktree.render(new["prog"])
             info = ktree.sym_info(new["prog"])
             names = ktree.sym_names(new["prog"])
